@@ -167,6 +167,7 @@ type World struct {
 	expAdd       []cbExpect
 	optAdd       []cbExpect // add-time events that may, but need not, happen in this step
 	passExpected []cbExpect
+	passSlot     []int // slot (list, or the block of all columns) of every expected event
 	inPass       bool
 	inHeaders    bool
 	errSink      *mRow // detached row currently receiving callback errors, or nil = table
@@ -266,15 +267,18 @@ var tmplKeys = []interface{}{tmplKey{1}, tmplKey{2}, tmplKey{3}}
 // NewTemplateCell builds a cell value with three properties, rendered-like
 // (several links in its chain).  Copies of it go into tables of different tasks.
 // NewTemplateErrs builds the error lists that several tables are handed: one
-// longer than a container's starting capacity and free of nil entries, one
-// with nil entries between the errors.
+// longer than a container's starting capacity (with spare capacity of its
+// own), one short; both free of nil entries.
 func NewTemplateErrs() [][]error {
 	full := make([]error, 12, 16) // (with room to spare: whoever keeps this slice and appends to it writes into memory it shares)
 	for i := range full {
 		full[i] = fmt.Errorf("prepared error %d", i)
 	}
-	holey := []error{fmt.Errorf("prepared error a"), nil, fmt.Errorf("prepared error b"), nil, nil, fmt.Errorf("prepared error c"), fmt.Errorf("prepared error d")}
-	return [][]error{full, holey}
+	// (No nil entries in a list that several tables share: a container may tidy
+	// the nils out of a list it is handed — the statement only says what ends up
+	// in the container — and sharing such a list is then the caller's race.)
+	short := []error{fmt.Errorf("prepared error a"), fmt.Errorf("prepared error b"), fmt.Errorf("prepared error c")}
+	return [][]error{full, short}
 }
 
 func NewTemplateCell() *tabular.Cell {
